@@ -76,6 +76,14 @@ type (
 		unexp `json:"uo,omitzero"`
 		W     string
 	}
+	// embedded non-struct types of unexported name: invisible to encoding/json
+	unexpInt       int
+	unexpStrs      []string
+	EmbUnexpScalar struct {
+		unexpInt
+		unexpStrs
+		Z int `json:"z"`
+	}
 	// inside one struct: an omitted / named embedded struct followed by a flattened one
 	DashTwo struct {
 		DashInner `json:"-"`
@@ -202,6 +210,7 @@ var Pool = []PoolEntry{
 	{"Mixed", reflect.TypeFor[Mixed](), "struct"}, {"Described", reflect.TypeFor[Described](), "struct"},
 	{"TaggedUnexp", reflect.TypeFor[TaggedUnexp](), "struct"}, {"TaggedUnexpOmit", reflect.TypeFor[TaggedUnexpOmit](), "struct"},
 	{"HasMethodIfaces", reflect.TypeFor[HasMethodIfaces](), "methodiface"},
+	{"EmbUnexpScalar", reflect.TypeFor[EmbUnexpScalar](), "struct"},
 	{"DashTwo", reflect.TypeFor[DashTwo](), "struct"}, {"NamedTwo", reflect.TypeFor[NamedTwo](), "struct"}, {"Ambig", reflect.TypeFor[Ambig](), "struct"},
 	{"DashInner", reflect.TypeFor[DashInner](), "struct"}, {"DashMid", reflect.TypeFor[DashMid](), "struct"},
 	{"Rec", reflect.TypeFor[Rec](), "recursive"}, {"RecA", reflect.TypeFor[RecA](), "recursive"}, {"RecB", reflect.TypeFor[RecB](), "recursive"}, {"RecMap", reflect.TypeFor[RecMap](), "recursive"},
@@ -889,6 +898,11 @@ func (g *vg) fill(v reflect.Value, depth int, embeddedPtr bool) {
 		for i := 0; i < t.NumField(); i++ {
 			sf := t.Field(i)
 			if !sf.IsExported() && !sf.Anonymous {
+				continue
+			}
+			if !sf.IsExported() && sf.Type.Kind() != reflect.Struct {
+				// an embedded non-struct type of unexported name cannot be set (and encoding/json
+				// does not look at it)
 				continue
 			}
 			fv := v.Field(i)
